@@ -248,6 +248,14 @@ func (a *Act) chanKey(chv ssa.Value) string {
 		return a.fieldKey(t, st.Field(x.Field).Name())
 	case *ssa.Parameter:
 		return fnKey(a.fn) + "." + x.Name()
+	case *ssa.Call:
+		// channel obtained from an interface method (e.g. broadcaster.OutgoingPrevoteProofs())
+		if x.Call.IsInvoke() {
+			return ifaceKey(x.Call.Value.Type(), x.Call.Method.Name())
+		}
+		if sc := x.Call.StaticCallee(); sc != nil {
+			return fnKey(sc)
+		}
 	case *ssa.ChangeType:
 		return a.chanKey(x.X)
 	case *ssa.Phi:
@@ -277,6 +285,7 @@ func (a *Act) chanSend(st *State, ch, v Val, chv ssa.Value, pos token.Pos) {
 	if top.sends != nil {
 		*top.sends = append(*top.sends, a.chanKey(chv))
 	}
+	defer a.countSend(st, a.chanKey(chv))
 	if ci == nil {
 		return
 	}
@@ -290,6 +299,18 @@ func (a *Act) chanSend(st *State, ch, v Val, chv ssa.Value, pos token.Pos) {
 		return
 	}
 	a.vc.oblige(name, "chan-send", a.props, a.pos(pos), st.guard, s, "channel invariant on send: "+ci.Text)
+}
+
+// countSend increments the engine ghost nsent(<channel key>): the number of values sent on that channel.
+func (a *Act) countSend(st *State, key string) {
+	if key == "" {
+		return
+	}
+	id := a.eng.chanID(key)
+	k, hs := "G:nsent", "(Array Int Int)"
+	H := a.vc.getHeap(st, k, hs)
+	a.vc.setHeap(st, k, hs, store(H, id, "(+ 1 "+sel(H, id)+")"))
+	a.logHeapAt(k, id)
 }
 
 func (a *Act) chanRecv(st *State, ch Val, commaOk bool, chv ssa.Value, pos token.Pos) Val {
